@@ -33,7 +33,8 @@ def run(ctx):
     # ---- r1 who-may-call ---------------------------------------------------------------
     ctx.only_callers('C01.r1', 'Storage::update_last_state',
                      {'Storage::init_genesis_block', COMMIT, 'LightClientProtocol::update_prove_state_to_child'}, 3)
-    ctx.only_callers('C01.r1', 'Storage::update_last_n_headers', {'Storage::update_last_state'}, 1)
+    # (the last n headers are written by update_last_state itself, in the same batch as the tip: fix F45)
+    ctx.only_callers('C01.r1', 'Storage::last_n_headers_value', {'Storage::update_last_state'}, 1)
     ctx.only_callers('C01.r1', 'Peers::update_prove_state',
                      {COMMIT, 'LightClientProtocol::update_prove_state_to_child',
                       'LightClientProtocol::get_last_state_proof'}, 3)
@@ -43,9 +44,9 @@ def run(ctx):
     ctx.only_callers('C01.r1', 'Storage::rollback_to_block', {COMMIT}, 1)
     # discovered writers: every function that puts LAST_STATE_KEY / LAST_N_HEADERS_KEY
     writers = meta_key_writers(P, ('LAST_STATE_KEY', 'LAST_N_HEADERS_KEY'))
-    ctx.floor('C01.r1', 'functions referring to LAST_STATE_KEY/LAST_N_HEADERS_KEY with a DB put', len(writers), 2)
+    ctx.floor('C01.r1', 'functions referring to LAST_STATE_KEY/LAST_N_HEADERS_KEY with a DB put', len(writers), 1)
     for w in sorted(writers):
-        allowed_w = ('Storage::update_last_state', 'Storage::update_last_n_headers', 'Storage::init_genesis_block')
+        allowed_w = ('Storage::update_last_state', 'Storage::init_genesis_block')
         ctx.ob('C01.r1', w, 'writes trusted-tip meta key', w in allowed_w, allowed=list(allowed_w))
 
     # ---- r2 guard flow in execute ---------------------------------------------------------
@@ -133,7 +134,7 @@ def run(ctx):
         ctx.loop_guard('C01.r3', B, g, 'true', gname)
 
     # ---- r4 rejection leaves state unchanged ----------------------------------------------
-    trusted_sinks = {'Storage::update_last_state', 'Storage::update_last_n_headers', 'Peers::update_prove_state',
+    trusted_sinks = {'Storage::update_last_state', 'Peers::update_prove_state',
                      'Storage::rollback_to_block'}
     gblocks = []
     for g, acc in UNCOND:
